@@ -59,6 +59,7 @@ func VerifC18Responses() {
 	isHTTPS := zz.Or(req.URL.Scheme == "https", req.Header.Get("X-Forwarded-Proto") == "https")
 	// what the upstream answers: 0..2 values for each protected header and HSTS
 	up := zz.Upstream
+	up.Fail = zz.NondetBool("upstream.drops.the.connection") // bad gateway: the proxy answers 502 itself
 	nUp := zz.Choose("upstream.header.values", 3)
 	for _, k := range append(append([]string(nil), verifProtected...), verifHSTS) {
 		for i := 0; i < nUp; i++ {
@@ -78,6 +79,7 @@ func VerifC18Responses() {
 	zz.ReachIf(proxied, "proxied-content")
 	zz.ReachIf(rec.Status() == 302, "redirect-page")
 	zz.ReachIf(rec.Status() == 403, "error-page")
+	zz.ReachIf(rec.Status() == 502, "bad-gateway")
 	h := rec.H
 	// the three always-on headers: exactly the override if configured, else exactly the proxy's value
 	for _, k := range verifProtected {
